@@ -81,6 +81,8 @@ pub uninterp spec fn known(nid: NodeId) -> bool;
 /// the repository's identity document makes it visible to this peer (definition proved in unit `identity`);
 /// false when the repository is not in storage
 pub uninterp spec fn visible(rid: RepoId, did: Did) -> bool;
+/// the repository is in local storage (its identity document can be read)
+pub uninterp spec fn have(rid: RepoId) -> bool;
 /// the local node id
 pub uninterp spec fn local_id() -> NodeId;
 
@@ -144,7 +146,8 @@ impl Doc { #[verifier::external_body] pub fn is_visible_to(&self, did: &Did) -> 
 pub struct RepositoryError;
 pub trait ReadStorage {
     /// ASSUMED: `get(rid)` returns the identity document of `rid` if we have the repository
-    fn get(&self, rid: RepoId) -> (r: Result<Option<Doc>, RepositoryError>) ensures r is Ok && r->Ok_0 is Some ==> r->Ok_0->Some_0.rid == rid;
+    fn get(&self, rid: RepoId) -> (r: Result<Option<Doc>, RepositoryError>)
+        ensures r is Ok && r->Ok_0 is Some ==> r->Ok_0->Some_0.rid == rid, r is Ok ==> (r->Ok_0 is Some <==> have(rid));
 }
 pub trait Store {}
 pub struct Device<G>(pub G);
@@ -186,7 +189,11 @@ impl Outbox {
     /// SINK (C11): sends `msg` to the peer of `session`. A refs announcement may only go to a peer allowed to see the repository.
     #[verifier::external_body]
     pub fn write(&mut self, session: &Session, msg: Message)
-        requires msg matches Message::Announcement(a) ==> (a.message matches AnnouncementMessage::Refs(r) ==> visible(r.rid, Did(session.id)))   //[C11]
+        requires
+            // ... and a refs announcement of a repository whose visibility cannot be determined is not forwarded
+            msg matches Message::Announcement(a) ==> (a.message matches AnnouncementMessage::Refs(r) ==> have(r.rid)),   //[C11]
+            // the repository is in storage => its document makes it visible to the peer
+            msg matches Message::Announcement(a) ==> (a.message matches AnnouncementMessage::Refs(r) ==> (have(r.rid) ==> visible(r.rid, Did(session.id)))),   //[C11]
     { unimplemented!() }
 }
 
